@@ -230,7 +230,7 @@ func runC09(c *Ctx) {
 	}
 
 	// ---------- R09.4 release arm
-	c.Rule("R09.4", "E1", "release arm: on-hold removal; requeue push (item time, no overwrite) only for a non-zero time; parked value re-pushed (now, overwrite) and removed", 5)
+	c.Rule("R09.4", "E1", "release arm: on-hold removal; requeue push (item time, no overwrite) only for a non-zero time; parked value re-pushed (now, overwrite) and removed", 6)
 
 	relStarts := p.EdgeSuccs(run, armEdge("release"))
 	c.NoReach("R09.4", "release: nothing happens before the key leaves on-hold", run, relStarts, 1, OrInstr(push, nextIter), CutSpec{Nodes: onHoldRemove})
@@ -256,6 +256,25 @@ func runC09(c *Ctx) {
 	}
 
 	c.Check(nPush == 3, "R09.4", FuncName(run)+" :: three Push sites (requeue, parked re-push, put)", fpos(run), "3", fmt.Sprintf("%d Push sites", nPush))
+
+	// the released (possibly stale) value never goes into the queue after the fresh parked value of the same
+	// release: Push re-inserts an entry that moves to an earlier time with the value it is given
+	parkedPush := func(in ssa.Instruction) bool {
+		call, ok := in.(*ssa.Call)
+
+		return ok && Glob(pqT+".Push", p.CalleeName(call)) && strings.Contains(p.ArgDesc(call, 2), "lookup(")
+	}
+	stalePush := func(in ssa.Instruction) bool {
+		call, ok := in.(*ssa.Call)
+		if !ok || !Glob(pqT+".Push", p.CalleeName(call)) {
+			return false
+		}
+
+		d := p.ArgDesc(call, 2)
+
+		return strings.HasSuffix(d, ".Value") && !strings.Contains(d, "lookup(") && strings.HasSuffix(p.ArgDesc(call, 3), ".ReleaseAfter")
+	}
+	c.NoReach("R09.4", "release: the stale released value is not pushed after the fresh parked value", run, After(run, parkedPush), 1, stalePush, CutSpec{Nodes: nextIter})
 
 	isUnpark := func(in ssa.Instruction) bool {
 		call, ok := in.(*ssa.Call)
@@ -367,7 +386,7 @@ func runC09(c *Ctx) {
 	}
 
 	// ---------- R09.7 length accounting
-	c.Rule("R09.7", "E1", "length: +1 behind Push()==true / first parking, −1 with Pop / re-push onto an existing entry", 4)
+	c.Rule("R09.7", "E1", "length: +1 behind Push()==true / first parking, −1 with Pop / re-push onto an existing entry", 3)
 
 	for _, in := range Find(run, lenAdd("1")) {
 		bad, w := p.Reach(Entry(run), func(i ssa.Instruction) bool { return i == in }, CutSpec{Edges: FactEdge("true(call:"+pqT+".Push(*", "false(lookup(*,*)#1)")})
@@ -379,7 +398,7 @@ func runC09(c *Ctx) {
 		c.Check(!bad, "R09.7", FuncName(run)+" :: length −1 ⊣ {Pop, parked value merged into an existing entry}", in.Pos(), "paired", "length decremented without an entry leaving: "+strings.Join(w, " "))
 	}
 
-	c.Check(len(Find(run, lenAdd("1"))) == 3 && len(Find(run, lenAdd("-1"))) == 2, "R09.7", FuncName(run)+" :: three +1 sites and two −1 sites", fpos(run), "3 / 2", fmt.Sprintf("%d / %d", len(Find(run, lenAdd("1"))), len(Find(run, lenAdd("-1")))))
+	// (the number of accounting sites is not part of the rule: each site is checked against what it accounts for)
 
 	// ---------- R09.8 readiness guard & Push
 	c.Rule("R09.8", "E6", "Peek ready iff ReleaseAfter − now ≤ 0; Push: value updated before any early return, earlier time kept, 'new' iff absent", 6)
